@@ -180,7 +180,9 @@ pub fn is_valid_path(path: &str) -> bool {
         return false;
     }
 
-    let mut separators = 0;
+    // Start as though we've just seen a `::` separator:
+    // the first character must be the start of an identifier
+    let mut separators = 2;
 
     for c in path.chars() {
         match c {
@@ -193,11 +195,11 @@ pub fn is_valid_path(path: &str) -> bool {
                 separators = 2;
             }
             // The start of an identifier
-            c if separators % 2 == 0 && is_xid_start(c) => {
+            c if separators % 2 == 0 && (is_xid_start(c) || c == '_') => {
                 separators = 0;
             }
             // The middle of an identifier
-            c if is_xid_continue(c) => (),
+            c if separators == 0 && is_xid_continue(c) => (),
             // An invalid character
             _ => return false,
         }
